@@ -1,5 +1,7 @@
 import KmipGen.CodecSrc
 import KmipModel.ExpectCodec
+import KmipGen.Schema
+import KmipModel.DecodeCost
 
 /-
   Codec source tie (re-checked against /repo's current source on every run): the normalised source of every function of
@@ -16,5 +18,11 @@ theorem GenC05_codec_src_desc : KmipGen.codecSrc_desc = ExpectCodec.codecSrc_des
 
 /-- dynamic dispatch (BuildFieldValue methods) -/
 theorem GenC05_codec_src_disp : KmipGen.codecSrc_disp = ExpectCodec.codecSrc_disp := by decide
+
+/-- the hypothesis of `C05_decode_cost_linear` for the types /repo declares NOW: no structure the translator finds - at any
+    depth, behind any dispatch table - has more than 64 annotated fields (so that the 8 header bytes of a structure pay for its
+    freshly built descriptor) -/
+theorem GenC05_schemas_narrow : KmipGen.allSchemas.all (fun sd => Cost.SD.narrow Cost.width sd) = true := by
+  decide +kernel
 
 end Kmip
